@@ -72,7 +72,14 @@ def date(
     # `Markup("...") == "..."`, so the argument types are part of the cache key.
     # Otherwise a result formatted with a safe format string would be served,
     # unescaped, for an equal format string that is not safe (and vice versa).
-    return _date(dat, fmt, (type(dat), type(fmt)), environment=environment)
+    #
+    # Aware datetimes compare (and hash) equal when they are the same instant,
+    # whatever their time zone, but they are not formatted the same. The zone's
+    # offset and name are part of the key too.
+    zone = (
+        (dat.utcoffset(), dat.tzname()) if isinstance(dat, datetime.datetime) else None
+    )
+    return _date(dat, fmt, (type(dat), type(fmt), zone), environment=environment)
 
 
 @functools.lru_cache(maxsize=10)
